@@ -772,3 +772,100 @@ func Harness_C03rt(n int) {
             ["main.Parse (generated front end, pigeon.go) with all actions", "ast.New*", "(*CharClassMatcher).parse", "strconv.Unquote/UnquoteChar (std, SSA)", "validateUnicodeEscape"])
     rep.assumptions += ["expected ASTs and positions come from the catalogue printer (catalog/gspec.py), independent of pigeon"]
     return rep.finish()
+
+
+def in_bootstrap_subset(g):
+    ok = [True]
+    def f(e):
+        if e["k"] in ("andcode", "notcode", "state", "throw", "recover"):
+            ok[0] = False
+    for r in g["rules"]:
+        gspec.walk(r["expr"], f)
+    return ok[0]
+
+
+def check_C20(tier, seed):
+    rep = Report("C20", tier, seed, "translation_validation")
+    w = Work()
+    w.build_pigeon()
+    quick = tier == "quick"
+    # (b) regeneration of every checked-in artifact + fixpoint (concrete; also the precondition of all other checks)
+    import regen
+    res, err = regen.regen_all(w)
+    if err:
+        rep.inconclusive.append("regeneration: " + err)
+    bad = [r for r in res if r["status"] != "identical"]
+    for r in bad:
+        doc = {"property": "C20", "case": "regen:" + r["target"], "msg": "regenerated artifact %s" % r["status"], "cmd": r["cmd"], "detail": r.get("detail", ""), "tags": [], "input": [], "model": {}}
+        k = match_known("C20", doc)
+        if k is not None:
+            rep.known.append("%s %s" % (k["id"], k["what"]))
+        else:
+            rep.violation(save_replay("C20", doc), "regenerating %s with `%s`: %s %s" % (r["target"], r["cmd"], r["status"], r.get("detail", "")))
+    # fixpoint: pigeon -nolint grammar/pigeon.peg == pigeon.go
+    fp = subprocess.run([w.pigeon, "-nolint", "grammar/pigeon.peg"], cwd=REPO, env=base_env(), capture_output=True)
+    same = fp.returncode == 0 and fp.stdout == open(os.path.join(REPO, "pigeon.go"), "rb").read()
+    if not same:
+        doc = {"property": "C20", "case": "fixpoint", "msg": "pigeon -nolint grammar/pigeon.peg differs from pigeon.go", "tags": [], "input": [], "model": {}}
+        rep.violation(save_replay("C20", doc), "bootstrap chain is not a fixpoint: `pigeon -nolint grammar/pigeon.peg` (exit %d) differs from the checked-in pigeon.go" % fp.returncode)
+    # (a) two front ends on symbolic text
+    cats = [g for g in cores.all_c01() + cores.context_catalogue() + cores.fail_catalogue() + cores.lr_catalogue() + cores.opt_catalogue() + cores.class_catalogue()
+            if in_bootstrap_subset(g)]
+    if quick:
+        cats = cats[::4]
+    rt = []
+    for g in cats:
+        g = json.loads(json.dumps(g))
+        text, g2 = gspec.print_grammar_pos(g, "p")
+        if quick and len(text) > 700:
+            continue
+        rt.append((g["name"], text))
+    skel = [g for g in cores.composites() + cores.context_catalogue()[:4] if in_bootstrap_subset(g)][: (3 if quick else 8)]
+    lay, maxseps = [], 1
+    for g in skel:
+        g = json.loads(json.dumps(g))
+        text, g2 = gspec.print_grammar_pos(g, "p")
+        seps = g2["_sep_offs"]
+        if quick:
+            seps = seps[::max(1, len(seps) // 5)][:5]
+        maxseps = max(maxseps, len(seps))
+        lay.append((g["name"], text, seps))
+    hole_len = 2 if quick else 3
+    src = ["package main\n\ntype c20Case struct {\n\tname, text string\n}\n\nvar c20Cases = []c20Case{\n"]
+    for name, text in rt:
+        src.append("\t{%s, %s},\n" % (go_str_lit(name), go_str_lit(text)))
+    src.append("}\n\ntype c20Lay struct {\n\tname string\n\ttext []byte\n\tseps []int\n}\n\nvar c20Layout = []c20Lay{\n")
+    for name, text, seps in lay:
+        src.append("\t{%s, []byte(%s), []int{%s}},\n" % (go_str_lit(name), go_str_lit(text), ", ".join(str(s) for s in seps)))
+    src.append("}\n\nconst c20MaxSeps = %d\nconst c20HoleLen = %d\n" % (maxseps, hole_len))
+    # the C03 hole file provides refEscape; its data tables must exist
+    stub03 = "package main\n\ntype c03Lay struct {\n\tname string\n\ttext []byte\n\tseps []int\n\twant any\n}\n\nvar c03Layout []c03Lay\n\nconst c03MaxSeps = 1\nconst c03HoleLen = 1\n"
+    files = {"zz_verif_main.go": open(os.path.join(VERIF, "harness", "main_common.go")).read(),
+             "zz_verif_dump.go": open(os.path.join(VERIF, "harness", "astdump_main.go")).read(),
+             "zz_verif_c03h.go": open(os.path.join(VERIF, "harness", "c03_holes_main.go")).read(),
+             "zz_verif_c03stub.go": stub03,
+             "zz_verif_c20.go": open(os.path.join(VERIF, "harness", "c20_main.go")).read(),
+             "zz_verif_c20data.go": "".join(src)}
+    names = ["Harness_C20rt", "Harness_C20layout", "Harness_C20escape", "Harness_C20class", "Harness_C20op"]
+    ov = RepoOverlay(w, ".", "main", files, names)
+    tmo = 120 if quick else 900
+    agg = overlay_explore(rep, "C20", ov, "Harness_C20rt$", 0, len(rt) - 1, tmo, "c20_roundtrip", sample_every=1, max_triage=4, max_steps=20_000_000 if quick else 400_000_000)
+    lay_args = [ci * maxseps + si for ci, (_, _, seps) in enumerate(lay) for si in range(len(seps))]
+    agg = merge_agg(agg, overlay_explore(rep, "C20", ov, "Harness_C20layout$", 0, 0, tmo, "c20_layout", sample_every=23, max_triage=3, args=set(lay_args)))
+    esc_args = [q * 16 + n for q in (0, 1) for n in ((1, 3) if quick else (1, 3, 5, 9))]
+    agg = merge_agg(agg, overlay_explore(rep, "C20", ov, "Harness_C20escape$", 0, 0, tmo, "c20_escape", sample_every=23, max_triage=3, args=set(esc_args)))
+    agg = merge_agg(agg, overlay_explore(rep, "C20", ov, "Harness_C20class$", 0, 3 if quick else 4, tmo, "c20_class", sample_every=23, max_triage=3))
+    agg = merge_agg(agg, overlay_explore(rep, "C20", ov, "Harness_C20op$", 0, 0, tmo, "c20_op", sample_every=3, max_triage=3))
+    agg.pop("_samples", None)
+    std_cov(rep, agg, rt, {"catalogue_texts": len(rt), "layout_holes": "%d symbolic layout bytes at %d token boundaries" % (hole_len, len(lay_args)),
+                           "escape_holes": "valid escape bodies of length %s" % ("1,3" if quick else "1,3,5,9"), "class_holes": "<= %d printable ASCII bytes" % (3 if quick else 4),
+                           "artifacts_regenerated": len(res)},
+            "one state = one explored path on which both front ends take the same decisions; programs = texts compared",
+            ["bootstrap.Scanner / bootstrap.Parser (hand-written front end)", "main.Parse (generated front end)", "ast.New*", "(*CharClassMatcher).parse", "strconv.Unquote (std, SSA)"])
+    rep.cov["disagreements_checked"] = agg.get("cex", 0)
+    rep.cov["regeneration"] = {"artifacts": len(res), "identical": len(res) - len(bad), "fixpoint_pigeon_nolint_equals_pigeon_go": same,
+                               "note": "concrete byte comparison, no symbolic variable: not a solver verdict (DESIGN.md §5)"}
+    rep.samples.append({"regenerated": [r["target"] for r in res[:6]]})
+    rep.assumptions += ["(a) hole contents are valid per the documentation (layout bytes, valid escapes, printable class bodies): the subset both front ends must understand",
+                        "(b) generators run with their working directory inside /repo (goimports resolves github.com/mna/pigeon/ast through the module of the cwd)"]
+    return rep.finish()
